@@ -101,6 +101,10 @@ pub struct Obs {
 
 pub trait Body {
     fn run<T: Text + ?Sized>(&self, t: &T, pos: usize) -> Obs;
+    /// replay operation that reproduces a panic raised inside `run`
+    fn panic_op(&self) -> &'static str {
+        "search"
+    }
     /// which start offsets to explore for a layout (default: every char boundary)
     fn positions(&self, widths: &[usize]) -> Vec<usize> {
         let mut v = vec![0];
@@ -122,7 +126,12 @@ fn lossy(b: &[u8]) -> String {
 }
 
 /// Explore `body` over every layout of at most `n` bytes and every start offset.
+thread_local! {
+    pub static N_EXTRA: std::cell::Cell<usize> = std::cell::Cell::new(0);
+}
+
 pub fn drive<B: Body>(prop: &str, body: &B, classes: &[Cls], n: usize, cfg: &RunCfg, rep: &mut PatReport) {
+    let n = n + N_EXTRA.with(|x| x.get());
     for widths in engine::layouts(n) {
         for pos in body.positions(&widths) {
             let ex = engine::explore(&widths, classes, &[], cfg.max_paths, true, |t: &SymStr| body.run(t, pos));
@@ -238,7 +247,7 @@ pub fn drive<B: Body>(prop: &str, body: &B, classes: &[Cls], n: usize, cfg: &Run
                         rep.candidates.push(Cand {
                             prop: prop.to_string(),
                             what: std::format!("panic: {}", ms),
-                            op: "search".to_string(),
+                            op: body.panic_op().to_string(),
                             pattern: rep.pattern.clone(),
                             casei: false,
                             limit: None,
@@ -424,6 +433,62 @@ fn has_selfref(e: &crate::Expr, open: &mut Vec<usize>, counter: &mut usize) -> b
     }
 }
 
+/// Does the pattern contain an inline flag group `(?i)` (no colon) whose innermost
+/// enclosing group is a capture / named / atomic / look-around group?  (Known finding F11:
+/// the flag then stays in effect after that group closes.)
+pub fn inline_flag_in_leaky_group(p: &str) -> bool {
+    let b = p.as_bytes();
+    let mut stack: Vec<bool> = Vec::new(); // true = leaky kind
+    let mut i = 0;
+    let mut in_class = 0usize;
+    while i < b.len() {
+        match b[i] {
+            b'\\' => {
+                i += 2;
+                continue;
+            }
+            b'[' => in_class += 1,
+            b']' if in_class > 0 => in_class -= 1,
+            b'(' if in_class == 0 => {
+                let rest = &p[i + 1..];
+                if rest.starts_with('?') {
+                    // (?flags) / (?flags:...) / (?:...) / (?#...) vs the other group kinds
+                    let mut j = 1;
+                    let rb = rest.as_bytes();
+                    while j < rb.len() && (rb[j] == b'-' || b"imsxUu".contains(&rb[j])) {
+                        j += 1;
+                    }
+                    if j < rb.len() && rb[j] == b')' && j > 1 {
+                        if stack.last().copied().unwrap_or(false) {
+                            return true;
+                        }
+                        i += 1 + j + 1;
+                        continue;
+                    }
+                    if j < rb.len() && rb[j] == b':' {
+                        stack.push(false);
+                    } else if rest.starts_with("?#") {
+                        // comment: skip to the closing parenthesis
+                        while i < b.len() && b[i] != b')' {
+                            i += 1;
+                        }
+                    } else {
+                        stack.push(true);
+                    }
+                } else {
+                    stack.push(true);
+                }
+            }
+            b')' if in_class == 0 => {
+                stack.pop();
+            }
+            _ => {}
+        }
+        i += 1;
+    }
+    false
+}
+
 /// Structural facts about a pattern that known findings are keyed on.
 pub fn structural_tags(e: &crate::Expr) -> Vec<String> {
     fn walk(e: &crate::Expr, in_atomic_scope: bool, in_lookbehind: bool, tags: &mut Vec<String>) {
@@ -479,6 +544,8 @@ pub fn process(cfg: &RunCfg, item: &Item) -> PatReport {
     let mut rep = PatReport::new(item);
     symx_api::clear_delegates();
     symx_api::set_step_cap(2_000_000);
+    // the thorough tier already runs at N + 2; the extra byte is for the quick tier
+    N_EXTRA.with(|x| x.set(if cfg.tier == "quick" { item.n_extra } else { 0 }));
     let r = std::panic::catch_unwind(std::panic::AssertUnwindSafe(|| process_inner(cfg, item, &mut rep)));
     if r.is_err() {
         let m = engine::LAST_PANIC.with(|q| q.borrow_mut().take()).unwrap_or_default();
@@ -560,6 +627,10 @@ fn process_search(cfg: &RunCfg, item: &Item, rep: &mut PatReport) {
     let classes = union_classes(&b.classes, &rp.classes);
     let body = SearchBody { prop: &cfg.prop, b: &b, rp: &rp, compare_ref };
     drive(&cfg.prop, &body, &classes, cfg.n, cfg, rep);
+    if cfg.prop == "C05" && rep.status == "checked" && rep.candidates.is_empty() {
+        // the same pattern through every public entry point (iteration, split, replace)
+        crate::props3::drive_entry_points(cfg, &b, &classes, rep);
+    }
 }
 
 // ---------------------------------------------------------------------------
@@ -596,6 +667,19 @@ pub fn work_list(cfg: &RunCfg) -> WorkList {
     if cfg.prop == "C01" {
         for w in corpus::F1_WITNESSES.iter() {
             fixed.push(Item::new(w, "f1-witness"));
+        }
+    }
+    for w in corpus::compile_matrix(thorough).iter() {
+        fixed.push(Item::new(w, "compile-matrix"));
+    }
+    for w in corpus::alt_order(false).iter() {
+        fixed.push(Item::new(w, "alt-order"));
+    }
+    if cfg.prop == "C15" {
+        for c in ["(?(a)X|c)b", "(?(a)c|X)b", "(b)?(?(1)X|c)c"].iter() {
+            for w in corpus::alt_order(false).iter().step_by(3) {
+                fixed.push(Item::new(&c.replace("X", &std::format!("(?:{})", w)), "alt-order-in-conditional"));
+            }
         }
     }
     if cfg.prop == "C15" {
